@@ -136,6 +136,16 @@ Theorem C04_no_wedge_all : forall c acts e m,
 Proof. exact no_wedge_reachable_all. Qed.
 Print Assumptions C04_no_wedge_all.
 
+(* Non-vacuity with an edit: the history of the repaired finding F18 (751 actions, one raise of maxTrialCount) meets every
+   premise of C04_no_wedge_all. *)
+Theorem C04_no_wedge_all_premises_satisfiable :
+  valid_cfg f18_cfg /\ no_teardown f18_acts /\ existsb (fun a => match a with UserRaiseMax _ => true | _ => false end) f18_acts = true /\
+  quiescent (run f18_cfg f18_acts) /\ env_done (run f18_cfg f18_acts) /\
+  exists e s, w_exp (run f18_cfg f18_acts) = Some e /\ e_max e = Some 2 /\
+              w_sug (run f18_cfg f18_acts) = Some s /\ NoDup (ss_names (s_st s)) /\ e_completed (e_st e) = true.
+Proof. exact f18_premises_hold. Qed.
+Print Assumptions C04_no_wedge_all_premises_satisfiable.
+
 (* No hot loop: in a quiescent state a further reconcile of any controller attempts no write and changes nothing in the store. *)
 Theorem C04_no_hot_loop : forall w c key resp,
   quiescent w -> good_resp w resp -> pending_of w c = [] ->
